@@ -105,6 +105,11 @@ fn roundtrip_compound(c: &Compound) -> Result<(), (String, String)> {
     if mirror(&back) != mirror(c) {
         return Err(("compound-mirror-differs".into(), format!("{:?} vs {:?}", mirror(&back), mirror(c))));
     }
+    // the same bytes through the streaming entry point (how the shipped data files are read)
+    let streamed: Compound = serde_cbor::from_reader(std::io::Cursor::new(&bytes)).map_err(|e| ("compound-does-not-decode-from-a-stream".to_string(), e.to_string()))?;
+    if streamed != *c {
+        return Err(("compound-roundtrip-differs".into(), format!("from a stream: {} vs {}", streamed, c)));
+    }
     let again = serde_cbor::to_vec(&back).map_err(|e| ("compound-does-not-encode".to_string(), e.to_string()))?;
     if again != bytes {
         return Err(("compound-reencoding-differs".into(), format!("{} bytes vs {} bytes", again.len(), bytes.len())));
@@ -141,6 +146,10 @@ fn roundtrip_constant(c: &Constant) -> Result<(), (String, String)> {
     let back: Constant = serde_cbor::from_slice(&bytes).map_err(|e| ("constant-does-not-decode".to_string(), e.to_string()))?;
     if !same_constant(&back, c) {
         return Err(("constant-roundtrip-differs".into(), format!("{:?} vs {:?}", back, c)));
+    }
+    let streamed: Constant = serde_cbor::from_reader(std::io::Cursor::new(&bytes)).map_err(|e| ("constant-does-not-decode-from-a-stream".to_string(), e.to_string()))?;
+    if !same_constant(&streamed, c) {
+        return Err(("constant-roundtrip-differs".into(), format!("from a stream: {:?} vs {:?}", streamed, c)));
     }
     if serde_cbor::to_vec(&back).ok().as_ref() != Some(&bytes) {
         return Err(("constant-reencoding-differs".into(), String::new()));
@@ -252,6 +261,13 @@ fn check(c: &Case) -> CaseReport {
                     return Ok((false, vec!["untypable(skipped)"]));
                 }
                 let q = crate::facts::phrase(&f.tokens);
+                // a stored payload that does not decode is skipped by the lookup: "nothing found" for a constant
+                // that is in the file means it did not survive being stored
+                if let Ok(rs) = crate::tool::run(crate::tool::shared_db(), &q) {
+                    if let [crate::tool::R::Err { msg, .. }] = rs.as_slice() {
+                        return Err(("shipped-constant-lost-in-the-index".into(), format!("{}: {}", q, msg)));
+                    }
+                }
                 match super::c16::differential(crate::tool::shared_db(), &f.tokens, &q) {
                     Some((sig, why)) => return Err((sig, format!("{}: {}", q, why))),
                     None => Ok((true, vec!["shipped-constant-through-the-index"])),
@@ -391,6 +407,11 @@ pub fn run_check(ctx: &Ctx) {
     }
     let units: Vec<Case> = v.units.iter().map(|u| Case::Unit { variant: u.variant.clone() }).collect();
     ctx.run_list("registry-units", &units, check, |c| to_json(c));
+    // the shipped files decoded in one piece, typed, from the gzip stream: as many constants as the untyped decode finds
+    let typed = crate::facts::typed_constants().len();
+    if typed != facts().all.len() {
+        ctx.record_case("registry", CaseReport::fail("typed-stream-decode", "shipped-files-do-not-decode-from-a-stream", json!({"typed_constants": typed, "constants": facts().all.len()})), json!({"typed": typed}));
+    }
     let pins = pinned_ids();
     ctx.put("pinned_identifiers", json!(pins.len()));
     ctx.run_list("pinned-identifiers", &pins, check, |c| to_json(c));
